@@ -1086,6 +1086,7 @@ type stanzaEncoder struct {
 }
 
 func (se *stanzaEncoder) EncodeToken(t xml.Token) error {
+	depth := se.depth
 	switch tok := t.(type) {
 	case xml.StartElement:
 		se.depth++
@@ -1159,7 +1160,12 @@ func (se *stanzaEncoder) EncodeToken(t xml.Token) error {
 		se.depth--
 	}
 
-	return se.TokenWriteFlusher.EncodeToken(t)
+	err := se.TokenWriteFlusher.EncodeToken(t)
+	if err != nil {
+		// The token was refused: the element was neither opened nor closed.
+		se.depth = depth
+	}
+	return err
 }
 
 // UpdateAddr sets the address used by the session.
